@@ -88,3 +88,28 @@ func ZZTextLine() {
 	rt.Reach("loop-returned")
 	rt.Assert("c11-connection-closed-once", cl.Closed == 1 && closers[0].N == 1 && closers[1].N == 1)
 }
+
+// ZZTextTruncatedSet (C11): a storage command whose stream ends (client gone) at any point
+// from the end of the command line to the end of the trailing CRLF of the data block, or
+// whose trailer bytes are arbitrary: the loop ends, no spinning, connection closed once.
+func ZZTextTruncatedSet() {
+	words := []string{"set", "add", "replace", "append", "prepend"}
+	word := words[rt.Choice("word", len(words))]
+	n := rt.Param("datalen", 2)
+	data := rt.Bytes("data", n)
+	trailer := rt.Bytes("trailer", 2) // arbitrary bytes where CRLF belongs
+	full := append([]byte(word+" k 0 0 "+string(rune('0'+n))+"\r\n"), data...)
+	full = append(full, trailer...)
+	lineEnd := len(word) + len(" k 0 0 0\r\n")
+	cut := lineEnd + rt.Choice("cut", len(full)-lineEnd+1)
+	cl := &Client{In: full[:cut], EOF: true}
+	h1 := model.NewHandler(&model.Store{}, 1700000000)
+	closers := []*Closer{{}, {}}
+	rd := bufio.NewReader(cl)
+	wr := bufio.NewWriter(cl)
+	s := server.Default([]io.Closer{cl, closers[0], closers[1]}, textprot.NewTextParser(rd), orcas.L1Only(h1, nil, textprot.NewTextResponder(wr)))
+	s.Loop()
+	rt.Reach("loop-returned")
+	rt.Assert("c11-connection-closed-once", cl.Closed == 1 && closers[0].N == 1 && closers[1].N == 1)
+	rt.Assert("c11-few-reads-after-eof", cl.EOFReads <= 4)
+}
